@@ -526,6 +526,47 @@ mod imp {
                     oracle,
                 }
             }
+            /// <cancel> of the first delayed send (event c) in a transition that brackets the <cancel> with two marker
+            /// sends (the 3rd and 4th timer item of the execution): the scheduler's step log then tells whether the
+            /// <cancel> ran before the timer took c (3rd..4th item scheduled before the pop), after it, or around it
+            fn cancel_oracle(what: &'static str) -> Oracle {
+                Box::new(move |o: &Obs| {
+                    basic_outcome(o)?;
+                    let p = processed(o);
+                    let nc = p.iter().filter(|n| *n == "c").count();
+                    let nd = p.iter().filter(|n| *n == "d").count();
+                    if nd != 1 {
+                        return Err(("other-id-affected".into(), format!("event d (other id, never cancelled) processed {} times: {:?}", nd, p)));
+                    }
+                    if nc > 1 {
+                        return Err(("delivered-twice".into(), format!("{:?}", p)));
+                    }
+                    let steps: Vec<&String> = o.result.steps.iter().map(|s| &s.op).collect();
+                    let items: Vec<(usize, String)> = steps
+                        .iter()
+                        .enumerate()
+                        .filter_map(|(i, s)| s.strip_prefix("timer-item ").map(|r| (i, r.split(' ').next().unwrap_or("").to_string())))
+                        .collect();
+                    if items.len() != 4 {
+                        return Err(("MACHINERY-scenario".into(), format!("expected 4 timer items (c, d, marker, marker), the step log has {:?}", items)));
+                    }
+                    let pop_c = steps.iter().position(|s| **s == format!("timer-pop {}", items[0].1));
+                    let (before, after) = (items[2].0, items[3].0);
+                    let class = match pop_c {
+                        Some(pp) if pp < before => "popped-before-cancel",
+                        Some(pp) if pp > after => "cancel-before-pop",
+                        None => "cancel-before-pop",
+                        _ => "around",
+                    };
+                    if class == "cancel-before-pop" && nc != 0 {
+                        return Err(("delivered-after-cancel".into(), format!("{} ran before the timer took the event, yet c was processed: {:?}", what, p)));
+                    }
+                    if class == "popped-before-cancel" && nc != 1 {
+                        return Err(("lost".into(), format!("the timer took event c before {} ran and the session was alive, yet c was not processed: {:?}", what, p)));
+                    }
+                    Ok(format!("c={} {}", nc, class))
+                })
+            }
             let note = r##"<transition event="*"><script>mark('got', _event.name); notify(_event.name)</script></transition>"##;
             // order by due time, units and delayexpr
             v.push(mk(
@@ -573,40 +614,13 @@ mod imp {
                 3,
                 format!(
                     r##"<scxml {ns} name="t2"><state id="a"><onentry><send id="x" event="c" delay="10ms"/><send id="y" event="d" delay="20ms"/></onentry>
-<transition event="stop"><cancel sendid="x"/><script>mark('cancelled')</script></transition>{note}</state></scxml>"##,
+<transition event="stop"><send event="z0" delay="1ms"/><cancel sendid="x"/><send event="z1" delay="1ms"/><script>mark('cancelled')</script></transition>{note}</state></scxml>"##,
                     ns = NS,
                     note = note
                 ),
                 vec!["stop"],
-                vec!["d"],
-                Box::new(|o: &Obs| {
-                    basic_outcome(o)?;
-                    let p = processed(o);
-                    let nc = p.iter().filter(|n| *n == "c").count();
-                    let nd = p.iter().filter(|n| *n == "d").count();
-                    if nd != 1 {
-                        return Err(("other-id-affected".into(), format!("event d (id y, never cancelled) processed {} times: {:?}", nd, p)));
-                    }
-                    // scheduler step log: was the item of send x cancelled before the timer popped it?
-                    let steps: Vec<&String> = o.result.steps.iter().map(|s| &s.op).collect();
-                    let first_item_pop = steps.iter().position(|s| s.starts_with("timer-pop"));
-                    let cancel = steps.iter().position(|s| s.starts_with("timer-cancel"));
-                    let cancelled_first = match (cancel, first_item_pop) {
-                        (Some(c), Some(pp)) => c < pp,
-                        (Some(_), None) => true,
-                        _ => false,
-                    };
-                    if cancelled_first && nc != 0 {
-                        return Err(("delivered-after-cancel".into(), format!("<cancel> ran before the timer took the event, yet c was processed: {:?}", p)));
-                    }
-                    if nc > 1 {
-                        return Err(("delivered-twice".into(), format!("{:?}", p)));
-                    }
-                    if !cancelled_first && nc != 1 {
-                        return Err(("lost".into(), format!("the timer took event c before <cancel> ran and the session was alive, yet c was not processed: {:?}", p)));
-                    }
-                    Ok(format!("c={} cancelled_first={}", nc, cancelled_first))
-                }),
+                vec!["d", "z0", "z1"],
+                cancel_oracle("<cancel sendid=\"x\"/>"),
             ));
             // arguments are evaluated when the send executes
             v.push(mk(
@@ -654,6 +668,48 @@ mod imp {
                     let p = processed(o);
                     if p != vec!["c1", "c2"] {
                         return Err(("same-id".into(), format!("two delayed sends with the same id, none cancelled: processed {:?}", p)));
+                    }
+                    Ok("ok".into())
+                }),
+            ));
+            // the usual idiom: the id is generated (idlocation) and the cancel names it through sendidexpr; the second
+            // generated id is unaffected
+            v.push(mk(
+                "cancel-by-sendidexpr",
+                1,
+                2,
+                format!(
+                    r##"<scxml {ns} name="t7"><datamodel><data id="sx" expr="''"/><data id="sy" expr="''"/></datamodel><state id="a"><onentry><send idlocation="sx" event="c" delay="10ms"/><send idlocation="sy" event="d" delay="20ms"/></onentry>
+<transition event="stop"><send event="z0" delay="1ms"/><cancel sendidexpr="sx"/><send event="z1" delay="1ms"/><script>mark('cancelled', sx, sy)</script></transition>{note}</state></scxml>"##,
+                    ns = NS,
+                    note = note
+                ),
+                vec!["stop"],
+                vec!["d", "z0", "z1"],
+                cancel_oracle("<cancel sendidexpr=\"sx\"/> (id generated through idlocation)"),
+            ));
+            // an id that was cancelled after its event had been delivered is used again: the later send is not affected
+            // by the stale <cancel>; and cancelling id "x" leaves id "x2" (same prefix) alone
+            v.push(mk(
+                "cancel-after-delivery-then-reuse",
+                1,
+                2,
+                format!(
+                    r##"<scxml {ns} name="t8"><state id="a"><onentry><send id="x" event="c1" delay="10ms"/><send id="x2" event="k" delay="40ms"/></onentry>
+<transition event="c1"><script>mark('got', 'c1')</script><cancel sendid="x"/><send id="x" event="c2" delay="10ms"/></transition>{note}</state></scxml>"##,
+                    ns = NS,
+                    note = note
+                ),
+                vec![],
+                vec!["c2", "k"],
+                Box::new(|o: &Obs| {
+                    basic_outcome(o).map_err(|(s, m)| (if s == "stuck" { "lost".to_string() } else { s }, m))?;
+                    let p = processed(o);
+                    // (k may overtake c2: how late the session handles c1 on the timer's clock is a scheduler choice)
+                    let mut sorted = p.clone();
+                    sorted.sort();
+                    if sorted != vec!["c1", "c2", "k"] || p.iter().position(|n| n == "c1") > p.iter().position(|n| n == "c2") {
+                        return Err(("stale-cancel".into(), format!("send x delivered, <cancel sendid=\"x\"/> (nothing pending), send x again, send x2 pending throughout: processed {:?}, expected c1, c2 and k once each", p)));
                     }
                     Ok("ok".into())
                 }),
